@@ -487,7 +487,7 @@ func (s *appState) op(d *driver, f []string) string {
 		return "st=" + s.stateStr(s.env.Ctx)
 	case "env":
 		return s.envOp(d, f[1:])
-	case "genvalidate", "geninit", "reimport":
+	case "genvalidate", "geninit", "genload", "reimport":
 		return s.genesisOp(d, f)
 	}
 	return "bad-op"
